@@ -19,7 +19,11 @@ Cx == DefaultCx
 \* from_dict, only those the class enabled); no options = the default context
 TriOf(o, k) == IF HasOpt(o, k) THEN (IF GetOpt(o, k, FALSE) THEN "yes" ELSE "no") ELSE "unset"
 CallCx(o) == [DefaultCx EXCEPT !.omit_none = TriOf(o, "omit_none"), !.by_alias = TriOf(o, "by_alias"),
-                               !.dlct = NormDialect(GetOpt(o, "dialect", <<>>))]
+                               !.dlct = NormDialect(GetOpt(o, "dialect", <<>>)),
+                               \* the default_dialect of a codec: the lowest level everywhere, the only level for the shape itself
+                               !.fmtd = NormDialect(GetOpt(o, "default_dialect", <<>>)),
+                               !.levels = << GetOpt(NormDialect(GetOpt(o, "default_dialect", <<>>)), "strategy", <<>>) >>,
+                               !.nocopy = GetOpt(NormDialect(GetOpt(o, "default_dialect", <<>>)), "no_copy", {})]
 \* ExtraKeysError carries a SET of keys (recorded as an array)
 NormErr(r) == IF r[1] = "err" /\ r[2][1] = "Extra" THEN <<"err", <<"Extra", Range(r[2][2]), r[2][3]>> >> ELSE r
 EvCx(e) == IF Len(e) >= 7 /\ e[7] # <<>> THEN CallCx(e[7]) ELSE DefaultCx
@@ -51,7 +55,7 @@ Clauses(e) ==
               \cup (IF IsBasic(res[2], {}) \/ e[6] THEN {} ELSE {"not-basic"})
     [] e[1] = "Round" ->
          LET T == NormT(e[3]) v == NormV(e[4]) res == NormR(e[5])
-             spec == Unpack(T, Cx, Listify(Pack(T, Cx, v))) IN
+             spec == Unpack(T, EvCx(e), Listify(Pack(T, EvCx(e), v))) IN
          IF IsUnknown(spec) THEN {"UNMODELLED"}
          ELSE IF ~IsOk(spec) \/ EqForm(spec[2]) # EqForm(v) THEN {"LOSSY-EXCLUDED"}   \* the statement's exclusions (ambiguous unions ...)
          ELSE IF IsOk(res) /\ EqForm(res[2]) = EqForm(v) THEN {} ELSE {"roundtrip"}
